@@ -3734,6 +3734,16 @@ class DataFrame(FrameBase):
         if level is not None:
             raise NotImplementedError("level must be None")
         axis = self._validate_axis(axis)
+        if (
+            is_dataframe_like(other) or is_series_like(other) and axis == 0
+        ) and not is_dask_collection(other):
+            other = self._create_alignable_frame(other)
+        if (
+            isinstance(other, FrameBase)
+            and (other.ndim == 2 or axis == 0)
+            and not expr.are_co_aligned(self.expr, other.expr)
+        ):
+            return new_collection(expr.ComparisonOpAlign(self, other, expr_cls, axis))
         return new_collection(expr_cls(self, other, axis))
 
     def lt(self, other, level=None, axis=0):
@@ -4247,6 +4257,14 @@ class Series(FrameBase):
         if level is not None:
             raise NotImplementedError("level must be None")
         self._validate_axis(axis)
+        if is_series_like(other) and not is_dask_collection(other):
+            other = self._create_alignable_frame(other)
+        if isinstance(other, FrameBase) and not expr.are_co_aligned(
+            self.expr, other.expr
+        ):
+            return new_collection(
+                expr.ComparisonOpAlign(self, other, expr_cls, level, fill_value)
+            )
         return new_collection(expr_cls(self, other, fill_value=fill_value))
 
     def lt(self, other, level=None, fill_value=None, axis=0):
